@@ -932,6 +932,12 @@ class Engine:
             if f == 'checked_to_num' and g in INT_RANGES:
                 r = fdiv(a, W); lo, hi = INT_RANGES[g]
                 return opt(z3.Or(r < lo, r > hi), IntV(r, g), f'Option<{g}>')
+            if f == 'to_num' and g in INT_RANGES and a is not None:
+                # fixed 1.28 `to_num` = FromFixed::from_fixed: floor, and with debug assertions off (the on-chain profile) an out-of-range value WRAPS
+                r = fdiv(a, W); lo, hi = INT_RANGES[g]; width = hi - lo + 1
+                ovf = z3.Or(r < lo, r > hi)
+                if self.feasible(st.pc + [ovf]): st.events.append(('wrapping_to_num', c, z3.And(st.pc + [ovf])))
+                return IntV(z3.If(ovf, ((r - lo) % width) + lo, r), g)
             if f in ('is_positive',): return BoolV(a > 0)
             if f in ('is_negative',): return BoolV(a < 0)
             if f in ('is_zero',): return BoolV(a == 0)
